@@ -33,7 +33,7 @@ func init() {
 			"PriceLimit, PriceBump, NoLocals, preset Locals) over real StateDBs of a generated block tree, inside a synctest bubble, driven by 1-120 (thorough: 1-300) seeded operations: local/remote, " +
 			"single/batched, sync/async submissions (AddRemotes, AddLocal, AddLocals, AddRemotesSync, AddRemote) of next-nonce, replacing (sufficient and insufficient bump), " +
 			"gapped, duplicate, stale, unaffordable, over-gas-limit, cheap, low-gas, wrong-network, bad-signature, oversized and heavy transactions; head changes (extension by 1-3 " +
-			"blocks, forks 1-3 deep onto a longer branch) whose blocks contain pool and foreign transactions, credits and gas-limit changes, so nonces and balances rise and fall " +
+			"blocks, forks 1-3 deep onto a longer, equally high or lower branch) whose blocks contain pool and foreign transactions, credits and gas-limit changes, so nonces and balances rise and fall " +
 			"and dropped transactions are re-injected; SetGasPrice; clock advances up to beyond Lifetime. Schedule fault: the background runReorg goroutine parks at gate H4 and " +
 			"the chooser decides after every foreground operation whether it runs now or stays parked while further operations (and sync callers) pile up behind it. After every stimulus the " +
 			"bubble is brought to quiescence and the exported views (Pending, Content, Stats, TransactionsNumber, Nonce, Get, Status, Locals) are checked against the real head state: structural " +
@@ -62,7 +62,7 @@ func init() {
 		Exec:       runC20,
 		PanicClass: kit.PanicInRepo("pool-panic"),
 		// reach probes every batch is expected to hit (listed in the evidence as probes_never_hit otherwise)
-		ExpectedProbes: []string{"executable-left-in-queue-when-drained", "fork-drops-mined-transactions", "global-queue-exceeded-by-locals", "global-slots-exceeded-within-guarantee", "head-lowers-balance", "head-lowers-gaslimit", "head-lowers-nonce", "lifetime-eviction", "pending-and-queued-nonempty", "pending-at-global-slots", "replacement-accepted", "replacement-rejected", "reset-batched-with-other-requests", "run-ended-at-possible-queue-truncation", "sync-caller-blocked-behind-gate"},
+		ExpectedProbes: []string{"executable-left-in-queue-when-drained", "fork-drops-mined-transactions", "fork-to-same-height", "fork-to-lower-height", "global-queue-exceeded-by-locals", "global-slots-exceeded-within-guarantee", "head-lowers-balance", "head-lowers-gaslimit", "head-lowers-nonce", "lifetime-eviction", "pending-and-queued-nonempty", "pending-at-global-slots", "replacement-accepted", "replacement-rejected", "reset-batched-with-other-requests", "run-ended-at-possible-queue-truncation", "sync-caller-blocked-behind-gate"},
 	})
 }
 
@@ -589,7 +589,20 @@ func (w *world) opHead() {
 		for i := 0; i < d; i++ {
 			base = base.parent
 		}
-		nNew = d + 1 + c.Intn("fork-extra", 2) // strictly longer than the branch it replaces
+		// The engine switches to any valid block whose parent is not the head (WriteBlockWithState
+		// reorgs whenever block.ParentHash != head), so the new branch may also end at the SAME
+		// height as the old head or one below it; choice 0 is the longer branch.
+		nNew = d + 1 + c.Intn("fork-extra", 2)
+		switch c.Weighted("fork-height", []int{5, 2, 1}) {
+		case 1:
+			nNew = d // a sibling at the old head's height
+			w.r.Probe("fork-to-same-height")
+		case 2:
+			if d > 1 {
+				nNew = d - 1 // the new head is lower than the old one
+				w.r.Probe("fork-to-lower-height")
+			}
+		}
 		fork = true
 	}
 	tip := base
